@@ -2,6 +2,7 @@ package sym
 
 import (
 	"fmt"
+	"os"
 	"sync/atomic"
 	"go/constant"
 	"go/token"
@@ -111,6 +112,8 @@ type State struct {
 	model    map[string]uint64
 	fallbacks []*Solver
 	firstRange bool
+	sleep    map[int]bool // DPOR sleep set (thread ids)
+	sleepInit []int       // sleep set to install when the forced prefix has been consumed
 	schedPts []schedPt
 	objAcc   map[any]*accRec
 	fromSnap bool
@@ -285,6 +288,10 @@ func (s *State) solveUncached(vars []*Term, extra ...*Term) (SatResult, map[stri
 	}
 	for _, fb := range s.fallbacks {
 		r, m = fb.CheckFresh(s.pc, vars, extra)
+		if r == Sat && vars != nil && !s.modelHolds(m, extra) {
+			s.ex.noteUnknownMsg("model returned by " + fb.Name + " does not satisfy the query (rejected)")
+			r, m = Unknown, nil
+		}
 		if r != Unknown {
 			s.ex.noteFallback()
 			return r, m
@@ -302,7 +309,36 @@ func (s *State) solveOn(sv *Solver, vars []*Term, extra []*Term) (SatResult, map
 	if vars == nil {
 		return sv.Check(extra...), nil
 	}
-	return sv.CheckModel(vars, extra...)
+	r, m := sv.CheckModel(vars, extra...)
+	if r == Sat && !s.modelHolds(m, extra) {
+		s.ex.noteUnknownMsg("model returned by " + sv.Name + " does not satisfy the query (rejected)")
+		return Unknown, nil
+	}
+	return r, m
+}
+
+// modelHolds evaluates the path condition and the extra conjuncts under a model returned by a
+// solver; a model that falsifies them is rejected (defence against solver or parsing errors).
+// Conjuncts the evaluator cannot decide (arrays, unrecorded applications) are skipped.
+func (s *State) modelHolds(m map[string]uint64, extra []*Term) bool {
+	// only complete models can be judged (a partial get-value leaves the other variables open)
+	for _, v := range s.vars {
+		if _, ok := m[v.Name]; !ok {
+			return true
+		}
+	}
+	memo := map[*Term]uint64{}
+	for _, c := range s.pc {
+		if v, ok := EvalOK(c, m, memo); ok && v == 0 {
+			return false
+		}
+	}
+	for _, c := range extra {
+		if v, ok := EvalOK(c, m, memo); ok && v == 0 {
+			return false
+		}
+	}
+	return true
 }
 
 // modelVars lists everything a model should give values for.
@@ -359,6 +395,12 @@ func (s *State) branch(c *Term) bool {
 		d := s.forced[s.dpos]
 		s.dpos++
 		s.trace = append(s.trace, d)
+		s.prefixConsumed()
+		if s.ex.Cfg.DebugModel != nil {
+			if v, ok := EvalOK(c, s.ex.Cfg.DebugModel, map[*Term]uint64{}); ok && (v != 0) != (d&1 == 1) {
+				fmt.Printf("MODEL-DISAGREES at decision %d (d=%d) in %s: cond=%s\n", s.dpos-1, d, s.where(), c.String())
+			}
+		}
 		if d&1 == 1 {
 			if d&2 == 0 {
 				s.assume(c)
@@ -387,7 +429,7 @@ func (s *State) branch(c *Term) bool {
 				return side
 			}
 			alt := append(append([]int{}, s.trace...), 1-d)
-			s.ex.push(alt)
+			s.ex.push(s.withSleep(alt, nil, -1))
 			s.trace = append(s.trace, d)
 			s.assume(mine)
 			return side
@@ -405,7 +447,7 @@ func (s *State) branch(c *Term) bool {
 	}
 	// both feasible (or unknown): take true now, queue false
 	alt := append(append([]int{}, s.trace...), 0)
-	s.ex.push(alt)
+	s.ex.push(s.withSleep(alt, nil, -1))
 	s.trace = append(s.trace, 1)
 	s.assume(c)
 	return true
@@ -423,15 +465,52 @@ func (s *State) choice(n int) int {
 		d := s.forced[s.dpos]
 		s.dpos++
 		s.trace = append(s.trace, d)
+		s.prefixConsumed()
 		return d >> 2
 	}
 	s.dpos++
 	for i := n - 1; i >= 1; i-- {
 		alt := append(append([]int{}, s.trace...), i<<2)
-		s.ex.push(alt)
+		s.ex.push(s.withSleep(alt, nil, -1))
 	}
 	s.trace = append(s.trace, 0)
 	return 0
+}
+
+// prefixConsumed installs the sleep set that belongs to a queued alternative once its forced
+// decisions have all been replayed.
+func (s *State) prefixConsumed() {
+	if s.dpos == len(s.forced) && s.sleepInit != nil {
+		s.sleep = map[int]bool{}
+		for _, t := range s.sleepInit {
+			s.sleep[t] = true
+		}
+		s.sleepInit = nil
+	}
+}
+
+// withSleep appends the sleep-set payload (marker -1, then thread ids) to a queued prefix: base is
+// the sleep set to start from (nil = the current one), extra a further thread to put to sleep.
+func (s *State) withSleep(prefix []int, base []int, extra int) []int {
+	if os.Getenv("VF_NOSLEEP") != "" {
+		return prefix
+	}
+	var ids []int
+	if base == nil {
+		for t := range s.sleep {
+			ids = append(ids, t)
+		}
+	} else {
+		ids = append(ids, base...)
+	}
+	if extra >= 0 {
+		ids = append(ids, extra)
+	}
+	if len(ids) == 0 {
+		return prefix
+	}
+	prefix = append(prefix, -1)
+	return append(prefix, ids...)
 }
 
 // concreteMax returns the value of t if constant.
@@ -460,9 +539,8 @@ func (s *State) concretize(t *Term, limit int, what string) uint64 {
 			s.trace = append(s.trace, d)
 			v = uint64(d >> 2)
 		} else {
-			s.sync()
 			tv := s.fresh("cz", t.W)
-			r, m := s.solver.CheckModel([]*Term{tv}, Eq(tv, t))
+			r, m := s.solve([]*Term{tv}, Eq(tv, t))
 			if r != Sat {
 				panic(execAbort{"unknown", "concretize: solver could not produce a value for " + what})
 			}
@@ -755,8 +833,12 @@ func (s *State) step(th *Thread) {
 		panic(execAbort{"unwind", fmt.Sprintf("instruction budget (%d) exhausted", s.ex.Cfg.MaxSteps)})
 	}
 	instr := fr.block.Instrs[fr.pc]
-	if s.ex.Cfg.TraceExec {
-		fmt.Printf("[t%d] %s: %s\n", th.id, fr.fn.Name(), instr)
+	if s.ex.Cfg.TraceExec && (s.ex.Cfg.TraceFn == "" || strings.Contains(fr.fn.Name(), s.ex.Cfg.TraceFn)) {
+		if v, ok := instr.(ssa.Value); ok {
+			fmt.Printf("[t%d] %s: %s = %s\n", th.id, fr.fn.Name(), v.Name(), instr)
+		} else {
+			fmt.Printf("[t%d] %s: %s\n", th.id, fr.fn.Name(), instr)
+		}
 	}
 	switch in := instr.(type) {
 	case *ssa.Jump:
@@ -854,6 +936,11 @@ func (s *State) step(th *Thread) {
 				s.doRecv(th, fr, u)
 			} else {
 				fr.locals[v] = s.evalInstr(fr, instr)
+				if s.ex.Cfg.TraceExec && s.ex.Cfg.TraceFn != "" && strings.Contains(fr.fn.Name(), s.ex.Cfg.TraceFn) {
+					if t, ok := fr.locals[v].(*Term); ok {
+						fmt.Printf("      %s := %s\n", v.Name(), t.String())
+					}
+				}
 			}
 		} else {
 			s.execEffect(fr, instr)
